@@ -165,7 +165,7 @@ class RecvTask(Task):
         g = I.ghost
         n = I.input("int", "nr_bytes")
         I.assume(n.e >= 0)
-        me = Env("self")
+        me = Env("self", cls=I.repo.cls(f"{TR}:AssociationSocket"))
         kind, val = I.run_function(I.repo.func(RECV), [me, n])
         P = "C03/" + RECV
         if kind == "raise":
@@ -357,7 +357,7 @@ class DecodeTask(Task):
         I.assume(z3.Length(b.e) >= 6)
         ty = b.e[0]
         I.assume(z3.And(ty >= 1, ty <= 7))      # guaranteed by the caller (_read_pdu_data), see ReadPduTask
-        me = Env("self")
+        me = Env("self", cls=I.repo.cls(f"{DUL}:DULServiceProvider"))
         me.attrs["assoc"] = Env("assoc")
         raised = {"v": False}
 
@@ -415,7 +415,7 @@ class DecodeFailTask(DecodeTask):
         I.assume(z3.Length(b.e) >= 6)
         ty = b.e[0]
         I.assume(z3.And(ty >= 1, ty <= 7))
-        me = Env("self")
+        me = Env("self", cls=I.repo.cls(f"{DUL}:DULServiceProvider"))
         me.attrs["assoc"] = Env("assoc")
 
         def env_call(I_, env, method, args, kw):
